@@ -4,3 +4,5 @@ import RoGen.SubjectLocks
 import RoGen.RateLimit
 import RoGen.ChanShape
 import RoGen.OpsGen
+import RoGen.Delegation
+import RoGen.Pipe
